@@ -83,6 +83,7 @@ class Trace:
         hash_state = {}
         pre_pending, pre_published = {}, {}
         quick_session, frames_since_disconnect = {}, {}
+        mut_required = {}
         tickrecv = {}
         emitted = {}           # seq -> dict(ty, mode, step, connected, ent)
         stamps = {}            # (client, seq) -> stamp of the message sent to that client
@@ -371,8 +372,8 @@ class Trace:
                 for l in block:
                     f = l.split()
                     if f[0] in ("upd", "mut") and "UNDECODABLE" in l:
-                        for p_ in ("C01", "C02", "C03"):
-                            self.add(p_, i, "the server sent a replication message that cannot be decoded: %s" % l)
+                        for p_ in ("C01", "C02", "C03") + (("C08",) if cfg.get("policy", "all") != "all" else ()):
+                            self.add(p_, i, "the server sent a replication message that cannot be decoded (what the client loses or gains in it is not applied): %s" % l)
                         continue
                     if f[0] in ("upd", "mut"):
                         c = int(f[1])
@@ -398,6 +399,8 @@ class Trace:
                                     for p_ in ("C01", "C03", "C08"):
                                         self.add(p_, i, why)
                         if f[0] == "mut":
+                            if kv_field(l, "i") is not None and kv_field(l, "u") is not None:
+                                mut_required[(sess_id.get(c), c, int(kv_field(l, "i")))] = int(kv_field(l, "u"))
                             muts_this_tick.setdefault(c, []).append(list(body))
                             self.stats["entities_in_mut"] += len(body)
                         if f[0] == "upd" and c in auth_tick_pending:
@@ -498,6 +501,17 @@ class Trace:
                 for l in block:
                     if l.startswith("ack "):
                         self.stats["acks"] += 1
+                        # an acknowledgement tells the server the data was received AND applied: a message that is still
+                        # waiting for its update message (required update tick ahead of the client's) must not be acknowledged
+                        cl_ = [x for x in block if x.startswith("cli %d " % c)]
+                        if cl_ and l.split()[1] == str(c) and len(l.split()) > 2:
+                            ut_c = int(kv_field(cl_[0], "ut"))
+                            for idx_ in l.split()[2].split(","):
+                                req = mut_required.get((sess_id.get(c), c, int(idx_)))
+                                if req is not None and 0 < (req - ut_c) % 2**32 < 2**31:
+                                    for p_ in ("C11", "C02"):
+                                        self.add(p_, i, "client %d acknowledged mutate message %s, which requires update tick %d, while its own update tick is %d: "
+                                                        "the server stops re-sending data the client has not applied" % (c, idx_, req, ut_c))
                     if l.startswith("tickrecv "):
                         for tk in l.split()[2].split(","):
                             key = (epoch, c, id(session.get(c)), int(tk))
